@@ -926,3 +926,42 @@ pub fn run_c10(ctx: &Ctx) -> i32 {
     };
     finish(ctx, out, fin)
 }
+
+/// Miri/sanitizer-sized C10: histories over a pool of tiny cases (32..64-sample blocks).
+pub fn mini_c10(ctx: &Ctx, scale: u64, out: &mut Outcome) {
+    let cache: FreshCache = Mutex::new(HashMap::new());
+    for h in 0..scale {
+        let mut rng = Rng::for_case(ctx.seed, "mini.C10", h);
+        let alphas: [f32; 4] = [0.0, 1e-6, 0.5, 0.5 + 1.0 / 131072.0];
+        let mut pool = vec![];
+        for i in 0..3 {
+            let bps = *rng.pick(&gen::WIDTHS);
+            let channels = *rng.pick(&[1usize, 2]);
+            let block = *rng.pick(&[64usize, 32, 33, 48]);
+            let len = block + rng.usize_below(block);
+            let fam = if i % 2 == 0 { "noise_full" } else { "tiny_noise" };
+            let a = gen::gen_audio_family(&mut rng, channels, bps, 44100, len, fam);
+            let mut cfg = gen::gen_config(&mut rng, &ConfigOpts { multithread: Some(false), min_max_parameter: 4 });
+            cfg.subframe_coding.qlpc.lpc_order = cfg.subframe_coding.qlpc.lpc_order.min(6);
+            cfg.subframe_coding.qlpc.window = Window::Tukey { alpha: *rng.pick(&alphas) };
+            cfg.block_size = block;
+            pool.push(Case { audio: Arc::new(a), cfg, block, mode: if rng.flip() { FillMode::Int } else { FillMode::Bytes }, hint: rng.flip() });
+        }
+        for i in 0..5 {
+            let c = rng.pick(&pool).clone();
+            let call = match rng.usize_below(5) {
+                0 => Call::StreamU64(c),
+                1 => Call::Frame(c, rng.usize_below(2)),
+                2 => Call::Parse(c),
+                _ => Call::Stream(c),
+            };
+            let got = call.exec();
+            let want = fresh_result(&cache, &call);
+            out.evaluations += 1;
+            if got != *want {
+                out.violation("C10|history-dependent|mini", format!("call #{i} of mini history {h} differs from the same call on a fresh thread: {}", call.describe()), json!({}));
+                break;
+            }
+        }
+    }
+}
